@@ -55,6 +55,10 @@ CHECKS['C19'] = dict(engine='progenum', category='exploration', section='3/C19',
    technique='bounded-exhaustive enumeration of all multisets of field values up to a size bound x aggregation instances and pairs, run through the production pipeline and compared with a direct computation over the same rows',
    text='All multisets of size <=3 (quick, 286) / <=4 (thorough, 1001) over {missing, 1, 2.5, -3, 0, two strings, boolean, list, map} stored one vertex per value; V().aggregate() with count, term (size 0/1/2), histogram (interval 1/2/5), percentile ([0,25,50,100]), field($._data), type, each alone and all 45 pairs in one step. Count, term frequencies and size limiting (counts of the kept buckets = the top counts), histogram alignment/coverage/sum, field key counts, NUMERIC/STRING type counts, percentile monotonicity and range, and independence of each result from its companion are checked as the property states them.',
    note='Percentile values themselves are not compared (t-digest approximation); under ties only the counts of size-limited term buckets are compared. Runs in crash-isolated workers.')
+CHECKS['C18'] = dict(engine='histmc', category='model_checking', section='3/C18',
+   technique='explicit enumeration of every element stream up to a length bound executed on the real GripServer.BulkAdd and, element by element, on the real AddVertex/AddEdge handlers over an identical store; final states compared through the full observation battery',
+   text='All streams of length <=3 (quick, 1111) / <=4 (thorough, 11111) over 10 element kinds (valid vertices in two graphs, relabel of an existing id, invalid vertex, valid/invalid edge, edge without id, element for a missing graph, element for a schema graph) go through GripServer.BulkAdd with a stub stream; the resulting store must be observably identical to the store obtained by sending the same elements one at a time, InsertCount/ErrorCount must equal the numbers accepted/rejected one by one; the same streams run behind accounts.BulkWriteFilter with a policy forbidding one graph. util.StreamBatch is enumerated over all sequences up to 4 (5) of 5 element kinds x batch sizes 1,2,3 and uniform streams around the literal sizes 50/100/200 against recording add functions (order, content, batch size, error-ness).',
+   note='Differential against the implementation\'s own one-by-one path (the property\'s definition), so C03\'s sequential defects are not charged again. Goroutine interleavings inside BulkAdd are not controlled here (C17 explores them).')
 NA_REASON = 'check not built yet in this session (planned in DESIGN.md section 3); nothing is claimed for it'
 
 m = {
